@@ -25,26 +25,26 @@ type CsMsg = proto::chainsync::Message<proto::chainsync::HeaderContent>;
 
 // bound: arbitrary buffer of symbolic length 0..=3; Kani's panic / bounds / overflow checks; unwind 8
 total!(c09_q_n2_keepalive, proto::keepalive::Message, 3, 8);
-total!(c09_q_n2_blockfetch, proto::blockfetch::Message, 3, 8);
-total!(c09_q_n2_chainsync, CsMsg, 3, 8);
-total!(c09_q_n2_txsubmission, proto::txsubmission::Message, 3, 8);
-total!(c09_q_n2_peersharing, proto::peersharing::Message, 3, 8);
-total!(c09_q_n2_leiosnotify, proto::leiosnotify::Message, 3, 8);
-total!(c09_q_n2_leiosfetch, proto::leiosfetch::Message, 3, 8);
+total!(c09_x_n2_blockfetch_b3, proto::blockfetch::Message, 3, 8);
+total!(c09_x_n2_chainsync_b3, CsMsg, 3, 8);
+total!(c09_x_n2_txsubmission_b3, proto::txsubmission::Message, 3, 8);
+total!(c09_x_n2_peersharing_b3, proto::peersharing::Message, 3, 8);
+total!(c09_x_n2_leiosnotify_b3, proto::leiosnotify::Message, 3, 8);
+total!(c09_x_n2_leiosfetch_b3, proto::leiosfetch::Message, 3, 8);
 total!(c09_q_n2_point, proto::Point, 3, 8);
 total!(c09_q_n2_tip, proto::chainsync::Tip, 3, 8);
-total!(c09_q_n2_peeraddress, proto::peersharing::PeerAddress, 3, 8);
+total!(c09_x_n2_peeraddress_b3, proto::peersharing::PeerAddress, 3, 8);
 // bound: arbitrary buffer of symbolic length 0..=5; unwind 10
 total!(c09_t_n2_keepalive, proto::keepalive::Message, 5, 10);
-total!(c09_t_n2_blockfetch, proto::blockfetch::Message, 5, 10);
-total!(c09_t_n2_chainsync, CsMsg, 5, 10);
-total!(c09_t_n2_txsubmission, proto::txsubmission::Message, 5, 10);
-total!(c09_t_n2_peersharing, proto::peersharing::Message, 5, 10);
-total!(c09_t_n2_leiosnotify, proto::leiosnotify::Message, 5, 10);
-total!(c09_t_n2_leiosfetch, proto::leiosfetch::Message, 5, 10);
+total!(c09_x_n2_blockfetch_b5, proto::blockfetch::Message, 5, 10);
+total!(c09_x_n2_chainsync_b5, CsMsg, 5, 10);
+total!(c09_x_n2_txsubmission_b5, proto::txsubmission::Message, 5, 10);
+total!(c09_x_n2_peersharing_b5, proto::peersharing::Message, 5, 10);
+total!(c09_x_n2_leiosnotify_b5, proto::leiosnotify::Message, 5, 10);
+total!(c09_x_n2_leiosfetch_b5, proto::leiosfetch::Message, 5, 10);
 total!(c09_t_n2_point, proto::Point, 5, 10);
 total!(c09_t_n2_tip, proto::chainsync::Tip, 5, 10);
-total!(c09_t_n2_peeraddress, proto::peersharing::PeerAddress, 5, 10);
+total!(c09_x_n2_peeraddress_b5, proto::peersharing::PeerAddress, 5, 10);
 
 /// vacuity twin: must come back FAILED
 #[kani::proof]
